@@ -62,7 +62,7 @@ def _matches(st, targets, calls, raises):
     return None
 
 
-def slice_function(relpath, func, targets, params, cls=None, calls=(), raises=False, returns=None, name='sliced', verbose=False, flatten_loops=False):
+def slice_function(relpath, func, targets, params, cls=None, calls=(), raises=False, returns=None, name='sliced', verbose=False, flatten_loops=False, closure=False):
     """returns (callable_factory, source_text). callable_factory(globals_dict) -> function(*params)"""
     f = get_function(relpath, func, cls)
     found = set()
@@ -92,6 +92,25 @@ def slice_function(relpath, func, targets, params, cls=None, calls=(), raises=Fa
             elif isinstance(st, ast.Try):
                 out += prune(st.body)
         return out
+    if closure:
+        # backward slice on names: keep every assignment to a name that a kept statement reads (transitively)
+        targets = list(targets)
+        for _ in range(50):
+            found.clear()
+            body = prune(f.body)
+            used = set()
+            for st in body:
+                for n in ast.walk(st):
+                    if isinstance(n, ast.Name) and isinstance(n.ctx, ast.Load):
+                        used.add(n.id)
+            assigned = set()
+            for n in ast.walk(f):
+                for t in _targets(n) if isinstance(n, (ast.Assign, ast.AugAssign, ast.AnnAssign)) else []:
+                    assigned.add(t)
+            new = [u for u in used if u in assigned and u not in targets]
+            if not new:
+                break
+            targets += new
     body = prune(f.body)
     missing = [a for a in list(targets) + list(calls) if a not in found and a != 'return']
     if missing:
